@@ -73,7 +73,7 @@ def gen_cases(tier, seed):
     many = [([2, 2, 2, 2, 2, 2], [[0, 1], [2, 3], [4, 5]]), ([2, 2, 3, 3, 2, 2], [[0, 1], [2, 3], [4, 5]]), ([2, 2, 2, 2, 2, 2], [[0, 5], [1, 3], [2, 4]]),
             ([2, 2, 2, 1, 2, 2, 2], [[0, 1], [2, 4], [5, 6]])]
     if tier == "thorough":
-        many += [([2, 2, 2, 2, 2, 2, 2, 2], [[0, 1], [2, 3], [4, 5], [6, 7]]), ([2, 2, 2, 2, 2, 2, 2], [[0, 1, 2], [3, 4], [5, 6]]),
+        many += [([2, 2, 2, 2, 2, 2, 2, 2], [[0, 1], [2, 3], [4, 5], [6, 7]]), ([2, 2, 2, 2, 2, 2, 2, 2, 2], [[0, 1, 2], [3, 4, 5], [6, 7, 8]]),
                  ([3, 3, 2, 2, 2, 2], [[0, 1], [2, 3], [4, 5]])]
     for shp, groups in many:
         for kind in ("generic", "symmetric", "almost", "first-group-symmetric", "last-group-symmetric"):
